@@ -130,3 +130,23 @@ WP_HEADER = ("From Coq Require Import List String QArith Qcanon ZArith.\n"
              "From Polar Require Import Qcx CRing ExpPoly ClosedForm Dist Syntax Sem Types Poly Pipeline Wp Search.\n"
              "Import ListNotations.\nOpen Scope string_scope.\n"
              "Definition cm0 : string -> list Qc -> nat -> Qc := fun _ _ _ => 0%Qc.\n")
+
+
+# ---- pass snapshots (tasks_core.dump_program) -> progast programs ---------------------------
+def stmt_from_dump(d, subs=None):
+    if "if" in d:
+        brs = [(cond_to_ast(c, subs), [stmt_from_dump(x, subs) for x in b]) for c, b in d["if"]]
+        els = [stmt_from_dump(x, subs) for x in d["else"]] if d.get("else") else None
+        return ("if", brs, els)
+    rhs = rhs_to_ast(d["rhs"], subs)
+    a = ("assign", d["var"], rhs)
+    c = cond_to_ast(d["cond"], subs)
+    if c == ("true",):
+        return a
+    els = None if d["default"] == d["var"] else [("assign", d["var"], P.det(P.var(d["default"])))]
+    return ("if", [(c, [a])], els)
+
+
+def prog_from_dump(dump, subs=None):
+    return {"types": [], "init": [stmt_from_dump(s, subs) for s in dump["init"]],
+            "guard": cond_to_ast(dump["guard"], subs), "body": [stmt_from_dump(s, subs) for s in dump["body"]]}
